@@ -387,7 +387,9 @@ pub fn prepare(sb: &Sandbox, case: &Case) -> (Files, Vec<OpSpec>, Vec<String>, V
                 if let Some(d) = cand {
                     use crate::genp::project::Edit;
                     let pk = &proj.pkgs[d];
-                    let edit = if pk.enums.iter().any(|e| e.variants.len() >= 2) {
+                    let edit = if let Some(e) = pk.enums.iter().position(|e| e.variants.len() >= 2 && e.variants[0].1 != e.variants[1].1) {
+                        Edit::SwapVariants { p: d, e }
+                    } else if pk.enums.iter().any(|e| e.variants.len() >= 2) {
                         Edit::SwapVariants { p: d, e: pk.enums.iter().position(|e| e.variants.len() >= 2).unwrap() }
                     } else if pk.structs.iter().any(|s| s.fields.len() >= 2) {
                         Edit::SwapFields { p: d, s: pk.structs.iter().position(|s| s.fields.len() >= 2).unwrap() }
@@ -396,13 +398,9 @@ pub fn prepare(sb: &Sandbox, case: &Case) -> (Files, Vec<OpSpec>, Vec<String>, V
                     };
                     let mut edited = proj.clone();
                     edited.apply_edit(&edit, 4242);
-                    let dn = proj.pkgs[d].name.clone();
-                    let mut inputs = Vec::new();
-                    for (f, b) in edited.render_pkg(d) {
-                        let rel = format!("edited/{f}");
-                        sb.write(&rel, &b);
-                        inputs.push(sb.path(&rel));
-                    }
+                    // the victim stays stale: a dependent of d, not Main if possible, so that
+                    // Main's own pins are all fresh and only a middle package is out of date
+                    let victim = (1..n).find(|c| proj.pkgs[*c].imports.contains(&d)).or_else(|| (0..n).find(|c| proj.pkgs[*c].imports.contains(&d)));
                     for nme in &order {
                         if let Some(b) = sb.read(&format!("out/{nme}.core")) {
                             sb.write(&format!("stale/{nme}.core"), &b);
@@ -411,14 +409,31 @@ pub fn prepare(sb: &Sandbox, case: &Case) -> (Files, Vec<OpSpec>, Vec<String>, V
                             sb.write(&format!("stale/{nme}.interface"), &b);
                         }
                     }
-                    let mut a = vec![s("goml"), s("build"), s("--package"), dn.clone(), s("--input")];
-                    a.extend(inputs);
-                    a.push(s("--interface-path"));
-                    a.push(sb.path("out"));
-                    a.push(s("--output"));
-                    a.push(sb.path(&format!("stale/{dn}")));
-                    let r = ops::goml(sb, &ProcSpec { entropy: 9, readdir: 9, ..Default::default() }, a);
-                    if r.exit == Exit::Ok {
+                    let mut all_ok = true;
+                    for nme in &order {
+                        let Some(xi) = edited.pkgs.iter().position(|p| p.name == *nme) else { continue };
+                        if Some(xi) == victim {
+                            continue;
+                        }
+                        let mut inputs = Vec::new();
+                        for (f, b) in edited.render_pkg(xi) {
+                            let rel = format!("edited/{f}");
+                            sb.write(&rel, &b);
+                            inputs.push(sb.path(&rel));
+                        }
+                        let mut a = vec![s("goml"), s("build"), s("--package"), nme.clone(), s("--input")];
+                        a.extend(inputs);
+                        a.push(s("--interface-path"));
+                        a.push(sb.path("stale"));
+                        a.push(s("--output"));
+                        a.push(sb.path(&format!("stale/{nme}")));
+                        let r = ops::goml(sb, &ProcSpec { entropy: 9, readdir: 9, ..Default::default() }, a);
+                        if r.exit != Exit::Ok {
+                            all_ok = false;
+                            break;
+                        }
+                    }
+                    if all_ok && victim.is_some() {
                         let mut a = vec![s("goml"), s("link"), s("--input")];
                         a.extend(order.iter().map(|n| format!("{{ROOT}}/stale/{n}.core")));
                         a.push(s("--output"));
